@@ -145,22 +145,52 @@ def maf_keyseq(locs, order):
              str(l["chr"]), int(l["start"]), int(l["stop"])] for l in locs]
 
 
-def eval_maf(order, contigs, config, cap, specs, canon):
+MAFSORTER_ROUTES = ["kw-contigs", "kw-fasta", "positional-contigs", "positional-fasta"]
+
+
+def mafsorter_args(route, contigs, tmp):
+    """(positional, keyword) sort-order arguments of MafSorter(name, scheme, capacity, *args, **kwargs) for a route."""
+    if not contigs:
+        return (), {}
+    if route == "kw-fasta":
+        return (), {"fasta_index": SC.fai_path(tmp, contigs)}
+    if route == "positional-contigs":
+        return (None, list(contigs)), {}
+    if route == "positional-fasta":
+        return (SC.fai_path(tmp, contigs),), {}
+    return (), {"contigs": contigs}
+
+
+def routes_of_config(config, contigs):
+    """The ways (order, contigs) can be handed to the sorter of a codec configuration."""
+    if config == "names":
+        return SC.routes_for(contigs)
+    return MAFSORTER_ROUTES if contigs else ["kw-contigs"]
+
+
+def eval_maf(order, contigs, config, cap, specs, canon, route=None, tmp=None):
     """One MAF sorting (records built from `specs`, added in that order) and the oracle's verdict (shared by run and
-    replay_case).  Returns (where, output texts or None, failures, key sequence or None)."""
+    replay_case).  `route` says how (order, contigs) reaches the sorter (None: contigs= keyword / Cls(contigs=...)).
+    Returns (where, output texts or None, failures, key sequence or None)."""
     from maflib.sorter import MafSorter, MafSorterCodec, Sorter
     recs = [make_maf_record(config, sp) for sp in specs]
-    kw = {"contigs": contigs} if contigs else {}
     where = {"order": order, "contigs": contigs, "codec": config, "capacity": cap, "specs": [list(sp) for sp in specs],
              "records": [str(r).split("\t")[:8] if config != "scheme" else [SC.loc_json(r)] for r in recs][:8]}
+    if route is not None:
+        where["route"] = route
     fails = []
     try:
-        if config == "scheme":
-            sorter = MafSorter(order, scheme=impl.scheme_by_annotation("gdc-1.0.0"), max_objects_in_ram=cap, **kw)
-        elif config == "inferred":
-            sorter = MafSorter(order, max_objects_in_ram=cap, **kw)
+        args, kw = mafsorter_args(route, contigs, tmp)
+        if config in ("scheme", "inferred"):
+            sch = impl.scheme_by_annotation("gdc-1.0.0") if config == "scheme" else None
+            if args:      # sort-order arguments given by position follow (name, scheme, capacity)
+                sorter = MafSorter(order, sch, cap, *args, **kw)
+            elif sch is not None:
+                sorter = MafSorter(order, scheme=sch, max_objects_in_ram=cap, **kw)
+            else:
+                sorter = MafSorter(order, max_objects_in_ram=cap, **kw)
         else:
-            so = SC.order_obj(order, contigs)
+            so = SC.order_obj(order, contigs) if route is None else SC.order_via(route, order, contigs, tmp)
             sorter = Sorter(cap, MafSorterCodec(column_names=list(recs[0].keys()) if recs else ["a"]), so.sort_key())
         for r in recs:
             sorter += r
@@ -215,14 +245,305 @@ def maf_cases(ctx, out):
                 out.nontrivial.add(repr((specs, order, contigs, config, cap)))
 
 
+
+# ---------------------------------------------------------------------------------------------------------------------
+# The generic sorter with arbitrary codecs: whatever bytes a codec produces (0x00, 0x0A, 0xFF, nothing at all) must come
+# back unchanged from a spill file, and any key type that totally preorders the items must do.
+import functools
+import pickle
+import struct
+
+
+class PickleCodec:
+    def __init__(self, protocol):
+        self.protocol = protocol
+
+    def encode(self, obj):
+        return bytearray(pickle.dumps(obj, protocol=self.protocol))
+
+    def decode(self, data, start, length):
+        return pickle.loads(bytes(data[start:start + length]))
+
+
+class StructCodec:
+    """Integers and tuples of integers as packed 32-bit fields (binary: any byte value can occur)."""
+
+    def encode(self, obj):
+        if isinstance(obj, tuple):
+            return bytearray(b"t" + struct.pack("<%di" % len(obj), *obj))
+        return bytearray(b"i" + struct.pack(">i", obj))
+
+    def decode(self, data, start, length):
+        raw = bytes(data[start:start + length])
+        if raw[:1] == b"t":
+            return tuple(struct.unpack("<%di" % ((length - 1) // 4), raw[1:]))
+        return struct.unpack(">i", raw[1:])[0]
+
+
+class RawCodec:
+    """bytes items stored as they are (the empty item encodes to nothing)."""
+
+    def encode(self, obj):
+        return bytearray(obj)
+
+    def decode(self, data, start, length):
+        return bytes(data[start:start + length])
+
+
+class Utf8Codec:
+    def encode(self, obj):
+        return bytearray(obj.encode("utf-8"))
+
+    def decode(self, data, start, length):
+        return bytes(data[start:start + length]).decode("utf-8")
+
+
+CODECS = {"json": JsonCodec, "pickle0": lambda: PickleCodec(0), "pickle2": lambda: PickleCodec(2), "pickle4": lambda: PickleCodec(4),
+          "struct": StructCodec, "raw": RawCodec, "utf8": Utf8Codec}
+
+
+@functools.total_ordering
+class Falsy:
+    """A key that totally orders like the wrapped value and is false in a boolean context."""
+
+    def __init__(self, v):
+        self.v = v
+
+    def __bool__(self):
+        return False
+
+    def __lt__(self, other):
+        return self.v < other.v
+
+    def __eq__(self, other):
+        return self.v == other.v
+
+    def __hash__(self):
+        return hash(self.v)
+
+    def __repr__(self):
+        return "Falsy(%r)" % (self.v,)
+
+
+@functools.total_ordering
+class Desc:
+    """A key that orders the other way round (the sorter must use the key, not the item)."""
+
+    def __init__(self, v):
+        self.v = v
+
+    def __lt__(self, other):
+        return other.v < self.v
+
+    def __eq__(self, other):
+        return self.v == other.v
+
+    def __hash__(self):
+        return hash(self.v)
+
+    def __repr__(self):
+        return "Desc(%r)" % (self.v,)
+
+
+INTS = [0, 10, 266, 2570, -1, 255, 1, 2, 3, 168430090, -246, 65535, 13, 2573]     # 10 = 0x0A, 266 = 0x010A, -246 = 0xFFFFFF0A, ...
+FAMILIES = {
+    "ints": {"pool": INTS, "codecs": ["json", "pickle0", "pickle2", "pickle4", "struct"],
+             "keys": {"id": lambda x: x, "mod": lambda x: x % 3, "neg": lambda x: -x, "falsy": Falsy, "desc": Desc,
+                      "pair": lambda x: (x % 2, x), "float": lambda x: x / 2.0}},
+    "strs": {"pool": ["", "\n", "a", "a\nb", "b\n", "\x00", "\u00ff", "\r\n", "ab", "\n\n", "\u2028"],
+             "codecs": ["json", "pickle0", "pickle2", "pickle4", "utf8"],
+             "keys": {"id": lambda x: x, "len": len, "rev": lambda x: x[::-1], "falsy": Falsy, "desc": Desc}},
+    "bytes": {"pool": [b"", b"\n", b"\x00", b"\xff", b"a\nb", b"\n\n", b"\x00\n\xff", b"ab", b"\r\n", b"\n\x00\x00\x00"],
+              "codecs": ["pickle2", "pickle4", "raw"],
+              "keys": {"id": lambda x: x, "len": len, "falsy": Falsy, "desc": Desc}},
+    "tuples": {"pool": None, "codecs": ["json", "pickle2", "pickle4", "struct"],
+               "keys": {"id": lambda x: x, "len": len, "sum": sum, "falsy": Falsy}},
+}
+INT_KEYS = {("ints", "id"), ("ints", "mod"), ("ints", "neg"), ("strs", "len"), ("bytes", "len"), ("tuples", "len"), ("tuples", "sum")}
+
+
+def gen_family_items(rng, family, n):
+    if family == "tuples":
+        return [tuple(rng.choice(INTS) for _ in range(rng.choice([0, 1, 1, 2, 3]))) for _ in range(n)]
+    pool = FAMILIES[family]["pool"]
+    few = rng.sample(pool, min(len(pool), rng.choice([2, 3, 5, len(pool)])))      # small pools give ties and duplicates
+    return [rng.choice(few) for _ in range(n)]
+
+
+def enc_item(x):
+    """JSON form of an item or key (bytes, tuples and the wrapper keys are tagged)."""
+    if isinstance(x, bytes):
+        return {"hex": x.hex()}
+    if isinstance(x, tuple):
+        return {"tuple": [enc_item(y) for y in x]}
+    if isinstance(x, list):
+        return {"list": [enc_item(y) for y in x]}
+    if isinstance(x, (Falsy, Desc)):
+        return {type(x).__name__: enc_item(x.v)}
+    if isinstance(x, float):
+        return {"float": repr(x)}
+    if x is None or isinstance(x, (int, str)):
+        return x
+    return {"repr": repr(x)}
+
+
+def dec_item(j):
+    if isinstance(j, dict):
+        if "hex" in j:
+            return bytes.fromhex(j["hex"])
+        if "tuple" in j:
+            return tuple(dec_item(y) for y in j["tuple"])
+        if "float" in j:
+            return float(j["float"])
+    return j
+
+
+def codec_run(items, keyf, codec, cap, always_spill, method, tmp, peek=None):
+    """(first pass, second pass, error, items taken from an iteration abandoned before the first pass or None)"""
+    from maflib.sorter import Sorter
+    s = Sorter(cap, CODECS[codec](), keyf, tmp_dir=tmp, always_spill=always_spill) if tmp is not None else \
+        Sorter(cap, CODECS[codec](), keyf, always_spill=always_spill)
+    try:
+        for it in items:
+            if method == "add":
+                s.add(it)
+            else:
+                s += it
+        taken = None
+        if peek is not None:
+            it = iter(s)
+            taken = [x for _k, x in zip(range(peek), it)]
+            it.close()                      # the caller walks away from this iteration
+        first = list(s)
+        second = list(s)
+        return first, second, None, taken
+    except Exception as e:  # noqa
+        return None, None, exc_name(e), None
+    finally:
+        try:
+            s.close()
+        except Exception:  # noqa
+            pass
+
+
+def eval_codec(order, family, kname, codec, cap, sp, method, tmp, peek=None):
+    """One generic sorting of `order` (insertion order) through a codec, and the oracle's verdict (shared by run and
+    replay_case).  The expected key sequence is the sorted sequence of the items' keys: it does not depend on anything
+    else.  Returns (where, first pass or None, failures, model request or None)."""
+    keyf = FAMILIES[family]["keys"][kname]
+    first, second, exc, taken = codec_run(order, keyf, codec, cap, sp, method, tmp, peek)
+    where = {"case": "codec", "family": family, "items": [enc_item(x) for x in order], "key": kname, "codec": codec,
+             "capacity": cap, "always_spill": sp, "method": method, "tmp_dir": tmp is not None}
+    if peek is not None:
+        where["abandoned_after"] = peek
+    fails = []
+    if exc:
+        fails.append(dict(where, what="sorting failed with %s" % exc, kind="exception"))
+        return where, None, fails, None
+    # the items come back exactly once each, equal in type and value
+    if sorted(repr(x) for x in first) != sorted(repr(x) for x in order):
+        fails.append(dict(where, what="output is not a permutation of the input: %d in, %d out" % (len(order), len(first)),
+                          kind="not-permutation", got=[enc_item(x) for x in first[:10]]))
+        return where, first, fails, None
+    keys = [keyf(x) for x in first]
+    if any(keys[i] > keys[i + 1] for i in range(len(keys) - 1)):
+        fails.append(dict(where, what="output is not in non-decreasing key order", kind="not-sorted", keys=[enc_item(k) for k in keys[:12]]))
+        return where, first, fails, None
+    if second != first:
+        fails.append(dict(where, what="iterating again gives a different sequence", kind="reiterate", first=len(first), second=len(second)))
+    if taken is not None and [enc_item(keyf(x)) for x in taken] != [enc_item(k) for k in keys[:peek]]:
+        fails.append(dict(where, what="an iteration abandoned after %d items gave other items than the start of the next one" % peek, kind="reiterate",
+                          got=[enc_item(x) for x in taken]))
+    canon = sorted(keyf(x) for x in order)
+    if [enc_item(k) for k in keys] != [enc_item(k) for k in canon]:
+        fails.append(dict(where, what="key sequence depends on capacity / policy / insertion order", kind="not-canonical",
+                          canon=[enc_item(k) for k in canon[:12]]))
+    req = None
+    if (family, kname) in INT_KEYS:
+        req = ({"op": "sorter.run", "cap": cap, "always_spill": sp, "items": [[keyf(x), i] for i, x in enumerate(order)]}, keys)
+    return where, first, fails, req
+
+
+def codec_cases(ctx, out, tmp):
+    """Multisets of items whose encodings contain every awkward byte, through every codec that can carry them."""
+    rng = ctx.rng("codecs")
+    reqs = []
+    for _ in range(ctx.scale(45, 450)):
+        family = rng.choice(sorted(FAMILIES))
+        codec = rng.choice(FAMILIES[family]["codecs"])
+        kname = rng.choice(sorted(FAMILIES[family]["keys"]))
+        n = rng.choice([0, 1, 2, 3, 4, 5, 6, 8])
+        items = gen_family_items(rng, family, n)
+        caps = list(range(1, n + 2))
+        if n > 4:
+            caps = sorted(rng.sample(caps, 4) + [n])
+        for cap in caps:
+            for sp in (True, False):
+                order = list(items)
+                rng.shuffle(order)
+                method = rng.choice(["+=", "+=", "add"])
+                out.evaluations += 1
+                peek = rng.randrange(0, n + 1) if rng.random() < 0.3 else None
+                where, first, fails, req = eval_codec(order, family, kname, codec, cap, sp, method, tmp if rng.random() < 0.8 else None, peek)
+                out.failures += fails
+                spilled = sp or n >= cap
+                if n >= 2 and spilled:
+                    out.nontrivial.add(repr((sorted(map(repr, items)), family, kname, codec, cap, sp)))
+                out.distribution["codec:" + codec] += 1
+                out.distribution["codec-key:%s/%s" % (family, kname)] += 1
+                if spilled and any(b in (0, 10, 255) for x in order for b in bytes(CODECS[codec]().encode(x))):
+                    out.distribution["spilled with a 0x00/0x0A/0xFF byte"] += 1
+                if req is not None:
+                    reqs.append(req)
+        if n >= 4 and sum(1 for x in out.samples if x.get("codec")) < 2:
+            out.sample({"codec": codec, "family": family, "key": kname, "items": [enc_item(x) for x in items]}, limit=8)
+    mo = ctx.driver.run([r for r, _ in reqs])
+    for (r, keys), m in zip(reqs, mo):
+        d = model_differs(r, keys, m)
+        if d:
+            out.disagreements.append(d)
+
+
+def maf_route_cases(ctx, out, tmp):
+    """MAF sortings in which (order, contigs) reaches the sorter through every constructor / header route."""
+    rng = ctx.rng("maf-routes")
+    contig_sets = [["2", "10", "1", "X"], ["X", "10", "2", "1"], ["1", "2", "10", "X"], None]
+    for _ in range(ctx.scale(45, 400)):
+        order = rng.choice(["Coordinate", "BarcodesAndCoordinate"])
+        contigs = rng.choice(contig_sets)
+        config = rng.choice(["scheme", "names", "names", "inferred"])
+        route = rng.choice(routes_of_config(config, contigs))
+        n = rng.choice([2, 3, 4, 5, 6])
+        specs = [(rng.choice(["T1", "T2"]), rng.choice(["N1", "N2", None]), rng.choice(["1", "2", "10", "X"]),
+                  rng.choice([5, 9, 10, 100, 1000]), rng.choice([0, 1, 10])) for _ in range(n)]
+        canon = None
+        for cap in sorted({1, rng.choice([2, 3]), n + 1}):
+            out.evaluations += 1
+            added = [(t, nn, c, s, s + d) for (t, nn, c, s, d) in specs]
+            rng.shuffle(added)
+            where, texts, fails, keyseq = eval_maf(order, contigs, config, cap, added, canon, route, tmp)
+            out.failures += fails
+            if keyseq is None:
+                continue
+            canon = canon or keyseq
+            out.distribution["route:" + route] += 1
+            out.nontrivial.add(repr((specs, order, contigs, config, cap, route)))
+
+
 def run(ctx):
     out = Outcome()
     out.rule = ("generic sorter: multisets with ties over int / str / tuple keys including 0, '' and (), every capacity 1..n+1, both spill policies, shuffled insertion orders, "
                 "iterated twice; MAF sorter: both orders x contigs absent/lexical/other x three codec configurations x capacities around n; "
-                "non-trivial = n >= 2; distinct (multiset, key, capacity, policy)")
+                "non-trivial = n >= 2; distinct (multiset, key, capacity, policy); "
+                "codecs: json / pickle protocols 0,2,4 / struct / raw bytes / utf-8 over ints, strings, bytes and tuples whose encodings contain 0x00, 0x0A and 0xFF "
+                "(and the empty encoding), keys of type int, float, str, bytes, tuple and two wrapper classes (false in a boolean context; descending), += and add(), "
+                "tmp_dir given or not; routes: (order, contigs) handed to MafSorter by keyword / position / FASTA index, and to Sorter as the key of an order built by every "
+                "constructor, header-record, from_lines, from_defaults, from_reader and reader route")
     with tempfile.TemporaryDirectory() as tmp:
         generic_cases(ctx, out, tmp)
-    maf_cases(ctx, out)
+        codec_cases(ctx, out, tmp)
+        maf_cases(ctx, out)
+        maf_route_cases(ctx, out, tmp)
     return out
 
 
@@ -247,6 +568,38 @@ def specs_of(failure):
 def replay_case(ctx, failure):
     """Re-evaluate the stored failing input on the current implementation; return the list of failure dicts it
     produces now (empty list = the property holds on that input)."""
+    if failure.get("case") == "codec" and failure.get("family") in FAMILIES:
+        family, kname, codec = failure["family"], failure["key"], failure["codec"]
+        if kname not in FAMILIES[family]["keys"] or codec not in CODECS:
+            return None
+        order = [dec_item(x) for x in failure["items"]]
+        cap, sp, method = failure["capacity"], bool(failure.get("always_spill")), failure.get("method", "+=")
+        keyf = FAMILIES[family]["keys"][kname]
+        print("generic sorter, codec=%s: %s %d items %r, key=%s, capacity=%d, always_spill=%s, iterate twice" % (
+            codec, method, len(order), order, kname, cap, sp))
+        print("encodings: %s" % [bytes(CODECS[codec]().encode(x)) for x in order][:12])
+        with tempfile.TemporaryDirectory() as tmp:
+            if failure.get("abandoned_after") is not None:
+                print("an iteration is started first and abandoned after %d items" % failure["abandoned_after"])
+            where, first, fails, req = eval_codec(order, family, kname, codec, cap, sp, method, tmp if failure.get("tmp_dir", True) else None, failure.get("abandoned_after"))
+        if first is None:
+            print("implementation: %s" % fails[0]["what"])
+        else:
+            print("implementation: first pass %r" % (first,))
+            print("                keys %r" % ([keyf(x) for x in first],))
+        print("expected keys:  %r" % (sorted(keyf(x) for x in order),))
+        if req is not None:
+            try:
+                m = ctx.driver.run([req[0]])[0]
+                print("model keys:     %s%s" % ([p[0] for p in m["out"]], "   (differs from the implementation)" if model_differs(req[0], req[1], m) else ""))
+            except Exception as e:  # noqa
+                print("model: not available (%s)" % str(e)[:200])
+        else:
+            print("model: not consulted (%s)" % ("a failed or incomplete sorting" if first is None or any(f["kind"] in ("not-permutation", "not-sorted") for f in fails)
+                                                 else "only integer keys are run on the model"))
+        for f in fails:
+            print("oracle fails: %s" % f["what"])
+        return fails
     if "items" in failure and failure.get("key") in KEYFS and "capacity" in failure:
         order = [_untuple(x) for x in failure["items"]]
         kname, cap, sp = failure["key"], failure["capacity"], bool(failure.get("always_spill"))
@@ -283,9 +636,11 @@ def replay_case(ctx, failure):
             locs = [SC.loc_json(make_maf_record(config, sp)) for sp in specs]
             locs.sort(key=functools.cmp_to_key(lambda a, b: expected_cmp(a, b, order, contigs or [])))
             canon = maf_keyseq(locs, order)
-        print("MAF sorter: order=%s contigs=%s codec=%s capacity=%d; %d records added as (tumor, normal, chr, start, end): %s" % (
-            order, contigs, config, cap, len(specs), [list(sp) for sp in specs]))
-        where, texts, fails, keyseq = eval_maf(order, contigs, config, cap, specs, canon)
+        route = failure.get("route")
+        print("MAF sorter: order=%s contigs=%s codec=%s capacity=%d%s; %d records added as (tumor, normal, chr, start, end): %s" % (
+            order, contigs, config, cap, "" if route is None else " (order, contigs) supplied through route %r" % route, len(specs), [list(sp) for sp in specs]))
+        with tempfile.TemporaryDirectory() as tmp:
+            where, texts, fails, keyseq = eval_maf(order, contigs, config, cap, specs, canon, route, tmp)
         if texts is None:
             print("implementation: %s" % fails[0]["what"])
         else:
